@@ -114,6 +114,8 @@ func expectID(id interface{}) interface{} {
 		return float64(v)
 	case uint64:
 		return float64(v)
+	case uint:
+		return float64(v)
 	case float64:
 		return float64(int(v))
 	}
